@@ -67,6 +67,7 @@ class HasStates:
         """
         self._state_machine = StateMachine(
             logger=self.log,
+            lock=self.accessLock,  # start_machine, stop_machine and final_status are atomic with respect to transitions
             idle_status=(IDLE, ''),
             transition=self.state_transition,
             reset_fast_poll=False,
@@ -205,14 +206,15 @@ class HasStates:
         4) the state machine continues at the given statefunc
         """
         sm = self._state_machine
-        if status is None:
-            sm.status = self.get_status(statefunc, BUSY)
-            if sm.statefunc:
-                sm.status = sm.status[0], 'restarting'
-        else:
-            sm.status = status
-        sm.start(statefunc, cleanup=kwds.pop('cleanup', self.on_cleanup), **kwds)
-        self.read_status()
+        with self.accessLock:  # no transition (see state_transition) between setting the status and posting the task
+            if status is None:
+                sm.status = self.get_status(statefunc, BUSY)
+                if sm.statefunc:
+                    sm.status = sm.status[0], 'restarting'
+            else:
+                sm.status = status
+            sm.start(statefunc, cleanup=kwds.pop('cleanup', self.on_cleanup), **kwds)
+            self.read_status()
         if fast_poll:
             sm.reset_fast_poll = True
             self.setFastPoll(True)
@@ -230,12 +232,13 @@ class HasStates:
         An already running cleanup sequence is not executed again.
         """
         sm = self._state_machine
-        if sm.is_active:
-            sm.idle_status = stopped_status
-            sm.stop()
-            sm.status = self.get_status(sm.statefunc, sm.status[0])[0], 'stopping'
-            self.read_status()
-            self.pollInfo.trigger(True)  # trigger poller
+        with self.accessLock:  # the machine must not become inactive between the test and setting the status
+            if sm.is_active:
+                sm.idle_status = stopped_status
+                sm.stop()
+                sm.status = self.get_status(sm.statefunc, sm.status[0])[0], 'stopping'
+                self.read_status()
+                self.pollInfo.trigger(True)  # trigger poller
 
     @Command
     def stop(self):
@@ -250,6 +253,7 @@ class HasStates:
             return self.final_status('IDLE', 'machine idle')
         """
         sm = self._state_machine
-        sm.idle_status = code, text
-        sm.cleanup = None
+        with self.accessLock:  # idle_status is also set by stop_machine
+            sm.idle_status = code, text
+            sm.cleanup = None
         return Finish
